@@ -30,7 +30,7 @@ def gen_case(rng, idx):
     # nested features share graph nodes between the tasks' sweeps: a documented limit of
     # retain_graph=False (C13's side condition), so such programs are driven with retain_graph=True
     nested = ajlib.entangled(prog, feats)
-    variants = [(None, None), (tasks, shared), (tasks, None), (None, shared)]
+    variants = [(None, None), (tasks, shared), (tasks, None), (None, shared), (tasks, [])]   # [] = heads-only update
     for k in [None, 1, 2, t + 1]:
         tp, sp = rng.choice(variants)
         if tp is not None and rng.random() < 0.3:
